@@ -140,7 +140,9 @@ def run(chk, tier, seed):
                     obs = -1 if (o.ok_alphabet() and o.err.strip()) else -2
             else:
                 path, drives, nfile = files[(c["kind"], c["cyl"], c["spt"])]
-                o = common.run([dfs, "--file", path, "dump-sector", drives[c["side"]], str(c["t"]), str(c["s"])], timeout=30)
+                # (numbers are decimal however they are written: every third job writes them zero-padded, as `seq -w` or %02d would)
+                pad = (lambda n: "%03d" % n) if (c["t"] + c["s"] + c["side"]) % 3 == 0 else str
+                o = common.run([dfs, "--file", path, "dump-sector", drives[c["side"]], pad(c["t"]), pad(c["s"])], timeout=30)
                 obs = shown_sector(o, stamps)
             return dict(c, e="sector", obs=obs)
         events = common.pmap(do, jobs)
